@@ -604,6 +604,7 @@ ASSUMPTIONS = [
     "Three encoders that end in an unconditional unimplemented!() (request_tx_rate_limit, update_rate_limmit, query_supported_interfaces) are marked external: outside every property.",
     "Termination: exec functions have only `for` loops over slices/ranges (Verus checks decreases for spec/proof fns; Kani does not check termination).",
     "No unsafe code in libmctp, bitfield 0.14 accessors used here, or smbus-pec (which forbids it).",
+    "One obligation of the unit is expected to fail and is outside every listed property (known_findings.json L1): the unreachable!() inside `impl From<u8> for CompletionCode` for a byte above 0x05 (a trait impl cannot carry a precondition). The receive path never calls it with such a byte: the two call sites in get_mctp_control_packet carry the obligation `packet[2] <= 5`.",
 ]
 
 
